@@ -54,3 +54,7 @@ VARIANTS += [
     M('C04', 'revert-fix-F35-greedy-ignore-pattern', E('tdda/referencetest/checkfiles.py', "('' if p.startswith('^') else '^(.*?)')", "('' if p.startswith('^') else '^(.*)')"), rule='C04-ORACLE', key='digits-changed'),
     M('C04', 'removal-decided-by-regex-search', E('tdda/referencetest/checkfiles.py', "                    if any(r in a for r in remove_lines)\n                ]\n            )\n            expected_removals", "                    if any(re.search(r, a) for r in remove_lines)\n                ]\n            )\n            expected_removals"), rule='C04-ORACLE', key='removal-text'),
 ]
+
+VARIANTS += [
+    M('C04', 'blank-final-line-dropped-like-an-empty-one', E(CF, "        if actual and len(actual[-1]) == 0:", "        if actual and not actual[-1].strip():"), rule='C04-ORACLE', key='final-line-of-blanks'),
+]
